@@ -32,6 +32,7 @@ import (
 	"github.com/sanonone/kektordb/internal/verifkit"
 	"github.com/sanonone/kektordb/pkg/core/distance"
 	"github.com/sanonone/kektordb/pkg/core/hnsw"
+	"github.com/sanonone/kektordb/pkg/core/types"
 	"github.com/sanonone/kektordb/pkg/engine"
 	"github.com/x448/float16"
 	"pgregory.net/rapid"
@@ -43,11 +44,18 @@ type c18ECase struct {
 	Via     string      `json:"via"` // direct | compress (create float32, add, VCompress to prec)
 	Vecs    [][]float32 `json:"vecs"`
 	Queries [][]float32 `json:"queries"`
+	// Load: "" / "single" = one VAdd per vector; "batch" = one VAddBatch for everything.
+	// ZeroLead: that many all-zero vectors (ids z0, z1) are stored BEFORE the others (first items of the batch):
+	// they carry no information for a quantiser. Restart: after all checks every stored vector is read, the engine
+	// is closed and reopened, and every vector must read back bit for bit as before.
+	Load     string `json:"load,omitempty"`
+	ZeroLead int    `json:"zero_lead,omitempty"`
+	Restart  bool   `json:"restart,omitempty"`
 }
 
 type c18EStats struct {
 	distChecked, distSkippedRange, results int
-	maxRatio                              float64
+	maxRatio                               float64
 }
 
 func c18HalfUlp16(x float64) float64 {
@@ -129,7 +137,7 @@ func c18RunECase(c c18ECase, st *c18EStats) (msg string) {
 	if err != nil {
 		panic("harness: engine.Open: " + err.Error())
 	}
-	defer e.Close()
+	defer func() { e.Close() }()
 	defer func() {
 		if r := recover(); r != nil {
 			msg = fmt.Sprintf("panic: %v", r)
@@ -146,9 +154,26 @@ func c18RunECase(c c18ECase, st *c18EStats) (msg string) {
 		return fmt.Sprintf("VCreate(%s,%s): %v", metric, createPrec, err)
 	}
 	id := func(i int) string { return fmt.Sprintf("v%02d", i) }
+	var allIDs []string
+	var batch []types.BatchObject
+	for z := 0; z < c.ZeroLead; z++ {
+		batch = append(batch, types.BatchObject{Id: fmt.Sprintf("z%d", z), Vector: make([]float32, n)})
+	}
 	for i, v := range c.Vecs {
-		if err := e.VAdd(idx, id(i), append([]float32{}, v...), nil); err != nil {
-			return fmt.Sprintf("VAdd(%s): %v", id(i), err)
+		batch = append(batch, types.BatchObject{Id: id(i), Vector: append([]float32{}, v...)})
+	}
+	for _, b := range batch {
+		allIDs = append(allIDs, b.Id)
+	}
+	if c.Load == "batch" {
+		if err := e.VAddBatch(idx, batch); err != nil {
+			return fmt.Sprintf("VAddBatch of %d vectors (%d leading zero vectors): %v", len(batch), c.ZeroLead, err)
+		}
+	} else {
+		for _, b := range batch {
+			if err := e.VAdd(idx, b.Id, b.Vector, nil); err != nil {
+				return fmt.Sprintf("VAdd(%s): %v", b.Id, err)
+			}
 		}
 	}
 	// what the quantiser / float16 conversion is fed with
@@ -242,6 +267,9 @@ func c18RunECase(c c18ECase, st *c18EStats) (msg string) {
 		for _, r := range res {
 			i, ok := index[r.ID]
 			if !ok {
+				if len(r.ID) == 2 && r.ID[0] == 'z' {
+					continue // a leading zero vector: stored, not judged for distance
+				}
 				return fmt.Sprintf("search returned unknown id %q", r.ID)
 			}
 			if !(r.Score > 0) || math.IsInf(r.Score, 0) {
@@ -294,6 +322,47 @@ func c18RunECase(c c18ECase, st *c18EStats) (msg string) {
 			}
 			if math.Abs(d-ref) > tol || d != d {
 				return fmt.Sprintf("%s/%s (%s) query %d vs %s: engine distance %.9g (score %.12g), float64 distance on the original vectors %.9g, |delta| %.4g > bound %.4g (n=%d, AbsMax=%.6g)", c.Metric, c.Prec, c.Via, qi, r.ID, d, r.Score, ref, math.Abs(d-ref), tol, n, absMax)
+			}
+		}
+	}
+	// ---- storage: the same values come back after Close/Open
+	if c.Restart {
+		read := func(e *engine.Engine) (map[string][]float32, string) {
+			out := map[string][]float32{}
+			for _, vid := range allIDs {
+				d, err := e.VGet(idx, vid)
+				if err != nil {
+					return nil, fmt.Sprintf("VGet(%s): %v", vid, err)
+				}
+				out[vid] = append([]float32{}, d.Vector...)
+			}
+			return out, ""
+		}
+		before, m := read(e)
+		if m != "" {
+			return "before Close: " + m
+		}
+		if err := e.Close(); err != nil {
+			return "Close: " + err.Error()
+		}
+		e2, err := engine.Open(engineOpts(filepath.Join(dir, "data")))
+		if err != nil {
+			return "Open after Close: " + err.Error()
+		}
+		e = e2
+		after, m := read(e)
+		if m != "" {
+			return "after Close/Open: " + m
+		}
+		for _, vid := range allIDs {
+			a, b := before[vid], after[vid]
+			if len(a) != len(b) {
+				return fmt.Sprintf("%s/%s (%s, load %s, %d leading zero vectors): %s has %d components after Close/Open, %d before", c.Metric, c.Prec, c.Via, c.Load, c.ZeroLead, vid, len(b), len(a))
+			}
+			for j := range a {
+				if math.Float32bits(a[j]) != math.Float32bits(b[j]) && !(a[j] == 0 && b[j] == 0) {
+					return fmt.Sprintf("%s/%s (%s, load %s, %d leading zero vectors): %s[%d] reads %.9g after Close/Open, %.9g before (whole vector %v -> %v)", c.Metric, c.Prec, c.Via, c.Load, c.ZeroLead, vid, j, b[j], a[j], a, b)
+				}
 			}
 		}
 	}
@@ -360,6 +429,11 @@ func c18GenECase() *rapid.Generator[c18ECase] {
 			}
 			c.Vecs[0], c.Vecs[bi] = c.Vecs[bi], c.Vecs[0]
 		}
+		c.Load = rapid.SampledFrom([]string{"single", "single", "batch"}).Draw(rt, "load")
+		if rapid.IntRange(0, 3).Draw(rt, "zerolead") == 0 {
+			c.ZeroLead = rapid.IntRange(1, 2).Draw(rt, "nzero")
+		}
+		c.Restart = rapid.IntRange(0, 2).Draw(rt, "restart") == 0
 		nq := rapid.IntRange(1, 4).Draw(rt, "nq")
 		for i := 0; i < nq; i++ {
 			if rapid.Bool().Draw(rt, "qstored") {
@@ -373,7 +447,7 @@ func c18GenECase() *rapid.Generator[c18ECase] {
 }
 
 func TestVerif_C18_engine(t *testing.T) {
-	col := verifkit.New("C18", "engine", "rapid: configuration from {float32/euclidean, float32/cosine, float16/euclidean direct|via VCompress, int8/cosine direct|via VCompress}, dim from {1,2,3,4,7,8,16,17,33,64}, 1-20 vectors with components in +-scale (scale 1e-2..1e3, or unit length), incl. +-0 and +-scale, for direct int8 mostly with the widest vector first (the range is trained on the first add), 1-4 queries (stored vectors or fresh); oracle: VGet per precision (exact / unit-length within float32 rounding / exact float16 rounding / within AbsMax/254 of the clipped value, AbsMax read from hnsw.Index.Quantizer()), and for every result of VSearchWithScores(k=all) the distance 1/score-1 against the float64 distance on the original vectors within the bound derived in the file header; non-trivial = at least one distance was compared (int8: with all components inside the trained range)")
+	col := verifkit.New("C18", "engine", "rapid: configuration from {float32/euclidean, float32/cosine, float16/euclidean direct|via VCompress, int8/cosine direct|via VCompress}, dim from {1,2,3,4,7,8,16,17,33,64}, 1-20 vectors with components in +-scale (scale 1e-2..1e3, or unit length), incl. +-0 and +-scale, for direct int8 mostly with the widest vector first (the range is trained on the first add), 1-4 queries (stored vectors or fresh), loaded one by one or by one VAddBatch, in a quarter of the cases behind 1-2 all-zero vectors, in a third of the cases followed by Close/Open with a bit-for-bit comparison of every read-back; oracle: VGet per precision (exact / unit-length within float32 rounding / exact float16 rounding / within AbsMax/254 of the clipped value, AbsMax read from hnsw.Index.Quantizer()), and for every result of VSearchWithScores(k=all) the distance 1/score-1 against the float64 distance on the original vectors within the bound derived in the file header; non-trivial = at least one distance was compared (int8: with all components inside the trained range)")
 	defer col.Finish()
 	if p := verifkit.ReplayPath(); p != "" {
 		if verifkit.ReplayPart(p) != "engine" {
@@ -408,6 +482,15 @@ func TestVerif_C18_engine(t *testing.T) {
 		}
 		if st.distChecked > 0 {
 			labels = append(labels, "distance-compared")
+		}
+		if c.Load == "batch" {
+			labels = append(labels, "loaded-by-one-batch")
+		}
+		if c.ZeroLead > 0 {
+			labels = append(labels, "zero-vectors-stored-first")
+		}
+		if c.Restart {
+			labels = append(labels, "read-back-compared-across-restart")
 		}
 		if st.maxRatio > maxRatio[key] {
 			maxRatio[key] = st.maxRatio
